@@ -189,6 +189,8 @@ service("BodyService", [
     ep("bodySmall10", "POST", "/b/small10", [arg("body", STRING, "body")], tags=["server-limit-request-size: 10b"]),
     ep("bodySmall64", "POST", "/b/small64", [arg("body", ref("Leaf"), "body")], tags=["server-limit-request-size: 64b"]),
     ep("bodyKib", "POST", "/b/kib", [arg("body", ref("Node"), "body")], tags=["server-limit-request-size: 1kib"]),
+    ep("bodyKb", "POST", "/b/kb", [arg("body", ref("Node"), "body")], tags=["server-limit-request-size: 1 KB"]),
+    ep("bodyHundred", "POST", "/b/hundred", [arg("body", lst(STRING), "body")], returns=INTEGER, tags=["server-limit-request-size: 100"]),
     ep("bodyWithParams", "POST", "/b/with/{p}", [
         arg("p", STRING, "path"), arg("q", lst(INTEGER), "query"), arg("h", opt(STRING), "header", pid="X-H"),
         arg("body", ref("Node"), "body")], returns=lst(STRING), auth="header"),
